@@ -42,6 +42,20 @@ static std::string int_show(const Boxed_Value &bv) {
   return std::string("ok other:") + ti.bare_name();
 }
 
+// A literal denotes its written value every time it is evaluated: the value cached in the syntax tree must be
+// const, and an attempt to write through it must not change what the next evaluation yields.
+static std::string probe(ChaiScript &chai, const std::string &text) {
+  std::string flags;
+  chai.eval("def __lit() { " + text + " }");
+  Boxed_Value v1 = chai.eval("__lit()");
+  if (!v1.is_const()) flags += " MUTABLE";
+  const std::string before = int_show(v1);
+  try { chai.eval("def __bump(x) { x += 1 }; __bump(__lit())"); } catch (...) {}
+  try { chai.eval("def __bump2(x) { ++x }; __bump2(__lit())"); } catch (...) {}
+  if (int_show(chai.eval("__lit()")) != before) flags += " REEVAL_CHANGED";
+  return flags;
+}
+
 int main() {
   ChaiScript chai;
   const auto st = chai.get_state();
@@ -53,10 +67,10 @@ int main() {
     if (w.size() == 4 && w[0] == "int") {
       const int base = std::stoi(w[1]);
       const std::string text = std::string(base == 16 ? "0x" : base == 2 ? "0b" : "") + vh::hex_decode(w[2]) + (w[3] == "-" ? "" : vh::hex_decode(w[3]));
-      out = guarded([&] { return int_show(chai.eval(text)); });
+      out = guarded([&] { return int_show(chai.eval(text)) + probe(chai, text); });
     } else if (w.size() == 2 && w[0] == "flt") {
       const std::string text = vh::hex_decode(w[1]);
-      out = guarded([&] { return int_show(chai.eval(text)); });
+      out = guarded([&] { return int_show(chai.eval(text)) + probe(chai, text); });
     } else if (w.size() == 2 && w[0] == "str") {
       const std::string src = "\"" + vh::hex_decode(w[1]) + "\"";
       out = guarded([&] { return "ok " + vh::hex_encode(chai.eval<std::string>(src)); });
